@@ -51,6 +51,17 @@ pub(super) fn discard_stale_outputs(
     key: DatabaseKeyIndex,
     stale: Vec<DatabaseKeyIndex>,
 ) {
+    #[cfg(salsa_verif)]
+    if crate::verif_trace::structs_enabled() {
+        let list: Vec<String> = stale
+            .iter()
+            .map(|k| crate::verif_trace::SId(k.ingredient_index(), k.key_index()).to_string())
+            .collect();
+        crate::verif_trace::ts(
+            "stale",
+            format_args!("{} [{}]", crate::verif_trace::K(key), list.join(",")),
+        );
+    }
     for output in stale {
         report_stale_output(zalsa, key, output);
     }
